@@ -33,6 +33,9 @@ pub fn par_for(n: usize, f: impl Fn(usize) + Sync) {
                     if let Err(msg) = crate::common::catch(|| f(i)) {
                         PANICS.lock().unwrap().push((i, msg));
                     }
+                    // work items that call pure functions directly (C23, C16, C12) count as
+                    // progress for the hang watchdog too
+                    crate::common::PROGRESS.fetch_add(1, Ordering::Relaxed);
                 }
             }).expect("spawn worker");
         }
